@@ -212,8 +212,6 @@ func checkCase(c *Case, count bool) error {
 			if !ok {
 				return fmt.Errorf("%s%s handler ran with Allow %q, want the set %v", desc, h.Kind, sv.Header.Get("Allow"), wantAllow[len(wantAllow)-1])
 			}
-		} else if len(allow) != 0 {
-			return fmt.Errorf("%s%s handler ran but an Allow header %q was set", desc, h.Kind, sv.Header.Get("Allow"))
 		}
 		if h.Kind != "route" {
 			if !h.RouteNil || h.Pattern != "" || len(h.Params) != 0 {
